@@ -367,6 +367,18 @@ def ip_contents():
         for pos in range(4):
             q = ['1', '2', '3', '4']; q[pos] = o
             out.append('.'.join(q))
+    # octets whose value only fits a wider integer, or wraps a 16-, 32- or 64-bit one onto 0-255; long runs of zeros
+    big = ['1000', '65535', '65536', '65537', '65791', '99999', '2147483647', '2147483648', '2147483649', '4294967295', '4294967296', '4294967297', '4294967551', '4294967552',
+           '9999999999', '18446744073709551615', '18446744073709551616', '18446744073709551617', '18446744073709551871', '0000000000', '0000000001', '00000000000000000255', '1' * 40, '25' + '0' * 30]
+    for o in big:
+        for pos in range(4):
+            q = ['1', '2', '3', '4']; q[pos] = o
+            out.append('.'.join(q)); out.append('IPv6:::ffff:' + '.'.join(q)); out.append('::' + '.'.join(q))
+    # accepted literals that are longer than the canonical 15 / 45 characters: zero-padded octets of every width
+    for k in list(range(1, 14)) + [20, 31, 32, 40, 63, 64, 100, 250]:
+        z = '0' * k
+        out += ['1.2.3.' + z + '4', z + '1.2.3.4', '1.' + z + '2.3.4', 'IPv6:::ffff:1.2.3.' + z + '4', 'IPv6:1:2:3:4:5:6:' + z + '1.2.3.4', '::' + z + '1.2.3.4',
+                '.'.join([z + '255'] * 4), '.'.join([z + '0'] * 4)]
     out += ['1.2.3', '1.2.3.4.5', '1..2.3', '.1.2.3', '1.2.3.4.', '1.2.3.4 ', ' 1.2.3.4', '1.2.3.a', '0.0.0.0', '0.1.2.3', '00.1.2.3', '1.2.3.4]', '[1.2.3.4', '1.2.3.4]x']
     groups = ['1', 'ab', 'ABC', 'ffff', '0', '12345', 'g', '']
     for tag in ('IPv6:', 'ipv6:', 'IPv5:', 'IPV6:', 'x:', '', 'IPv6', 'IPv6::'):
@@ -446,3 +458,62 @@ def with_nul(strings, limit=4000):
         for i in range(len(s) + 1):
             out.append(s[:i] + b'\x00' + s[i:])
     return out
+
+# ------------------------------------------------------------------ inputs built from the literals of the current sources
+def source_dictionary(src_root):
+    """String, character and integer literals of the C sources, headers and tool of the tree under check (comments removed):
+    a change that compares against a particular word, length, value or position has to spell it somewhere."""
+    import os, re
+    words, nums = set(), set()
+    for sub in ('src', 'include', 'include/eav', 'partial/idn2', 'partial/idn', 'partial/idnkit', 'bin'):
+        d = os.path.join(src_root, sub)
+        if not os.path.isdir(d): continue
+        for fn in sorted(os.listdir(d)):
+            if not fn.endswith(('.c', '.h')) or fn == 'auto_tld.c': continue
+            try: txt = open(os.path.join(d, fn), encoding='utf-8', errors='replace').read()
+            except OSError: continue
+            txt = re.sub(r'/\*.*?\*/', ' ', txt, flags=re.S); txt = re.sub(r'//[^\n]*', ' ', txt)
+            for m in re.finditer(r'"((?:[^"\\\n]|\\.)*)"', txt):
+                w = m.group(1)
+                try: b = bytes(w, 'latin-1').decode('unicode_escape').encode('latin-1')
+                except Exception: continue
+                if 1 <= len(b) <= 40 and 0 not in b and b'%' not in b: words.add(b)
+            for m in re.finditer(r"'((?:[^'\\\n]|\\.))'", txt):
+                try: b = bytes(m.group(1), 'latin-1').decode('unicode_escape').encode('latin-1')
+                except Exception: continue
+                if len(b) == 1 and b[0] != 0: words.add(b)
+            for m in re.finditer(r'(?<![\w.])(0[xX][0-9a-fA-F]+|\d+)(?![\w.])', txt):
+                try: v = int(m.group(1), 0)
+                except ValueError: continue
+                if 0 <= v <= 70000: nums.add(v)
+    return sorted(words), sorted(nums)
+
+def source_addresses(src_root, max_words=400, max_nums=160):
+    """addresses, local parts and domains assembled around those literals"""
+    words, nums = source_dictionary(src_root)
+    words = [w for w in words if not w.endswith(b'.h')][:max_words]
+    out = []
+    for w in words:
+        vs = {w, w.lower(), w.upper()}
+        for v in vs:
+            out += [v + b'@b.com', b'a.' + v + b'@b.com', v + b'.a@b.com', b'"' + v + b'"@b.com', b'a@' + v, b'a@' + v + b'.com', b'a@b.' + v, b'a@' + v + b'.example.com',
+                    b'a@x' + v + b'.com', b'a@' + v + b'x.com', b'a@[' + v + b']', b'a@[IPv6:' + v + b']', v + b'@' + v, b'a' + v + b'b@c' + v + b'd.org']
+    small = [k for k in nums if k <= 300][:max_nums]
+    for k in small:
+        for d in (-1, 0, 1):
+            n = k + d
+            if n < 1: continue
+            out += [b'a' * n + b'@b.com', b'a.' * (n // 2) + b'a@b.com', b'"' + b'a' * max(n - 2, 0) + b'"@b.com', b'a' * max(n - 1, 0) + b'.@b.com', b'a' * max(n - 1, 0) + b'"@b.com',
+                    b'a@' + b'b' * n + b'.com', b'a@b.' + b'c' * n, b'a@' + b'b' * min(n, 63) + b'.' + b'c' * min(n, 63) + b'.com', b'a@' + (b'b.' * n)[:250] + b'com',
+                    b'a@' + b'b' * max(n - 1, 0) + b'-.com', b'a@' + b'b' * max(n - 1, 0) + b'-c.com', b'a@' + b'1' * n + b'.com']
+            if n <= 255 + 1:
+                o = str(n).encode()
+                out += [b'a@[' + o + b'.1.1.1]', b'a@[1.' + o + b'.1.1]', b'a@[1.1.1.' + o + b']', b'a@[IPv6:' + b'%x' % n + b'::1]', b'a@[IPv6:1::' + b'%x' % n + b']', b'a@[IPv6:::' + o + b'.1.1.1]',
+                        b'a@[' + b':'.join([b'1'] * min(n, 12)) + b']', b'a@[IPv6:' + b':'.join([b'1'] * min(n, 12)) + b']']
+            if n <= 255:
+                c = bytes([n])
+                if n != 0:
+                    out += [c + b'@b.com', b'a' + c + b'@b.com', b'"' + c + b'"@b.com', b'"\\' + c + b'"@b.com', b'a@' + c + b'.com', b'a@b' + c + b'.com', b'a' * 20 + c + b'a' * 20 + b'@b.com']
+    for k in [k for k in nums if 300 < k <= 70000][:12]:
+        out += [b'a' * k + b'@b.com', b'a@' + b'b' * k, b'a@' + (b'b.' * k)[:k], b'"' + b'\\"' * (k // 2) + b'"@b.com']
+    return sorted(set(a for a in out if 0 not in a))
